@@ -97,46 +97,45 @@ Theorem c05_run_block_is_trace : forall env txs s,
 Proof. exact run_block_trace. Qed.
 Print Assumptions c05_run_block_is_trace.
 
-(** (6) tuneGasFeeByHeight, on the generated formulas: once active the result never exceeds the
-    balance handed in as the cap, and it is that cap or the least multiple of the rounding unit that
-    is >= gas; it panics (integer division by zero) exactly when the unit is 0. *)
-Theorem c05_tune_fee : forall h th gas round cap g, gas < two64 -> round < two64 ->
-  tune_active h th = true -> tune_fee h th gas round cap = TuneVal g ->
-  g <= cap /\ (g = cap \/ (g mod round = 0 /\ gas <= g /\ g < gas + round)).
+(** (6) tuneGasFeeByHeight, on the generated formulas. It is total (no division by a zero unit is
+    attempted since /repo 96f31c72: the zero test is one of the generated conditions and [tune_fee]
+    returns a number on every input); once active the result never exceeds the balance handed in
+    as the cap; it is that cap, or the unit is non-zero and the result is the least multiple of the
+    unit that is >= gas; for a zero unit it is the cap. *)
+Theorem c05_tune_fee : forall h th gas round cap, gas < two64 -> round < two64 ->
+  tune_active h th = true ->
+  let g := tune_fee h th gas round cap in
+  g <= cap /\ (g = cap \/ (round <> 0 /\ g mod round = 0 /\ gas <= g /\ g < gas + round)).
 Proof.
-  intros h th gas round cap g Hg Hr A E. split; [eapply tune_fee_capped; eauto|].
-  destruct (tune_fee_rounds _ _ _ _ _ _ Hg Hr A E) as [->|(X & Y & Z & _)]; [left; reflexivity|right; auto].
+  intros h th gas round cap Hg Hr A. cbv zeta. split; [apply tune_fee_capped; exact A|].
+  destruct (tune_fee_rounds h th gas round cap Hg Hr A) as [E|(X0 & X & Y & Z & _)]; [left; exact E|right; auto].
 Qed.
 Print Assumptions c05_tune_fee.
 
-Theorem c05_tune_panic_iff : forall h th gas round cap,
-  tune_fee h th gas round cap = TunePanic <-> (tune_active h th = true /\ round = 0).
-Proof. exact tune_fee_panic_iff. Qed.
-Print Assumptions c05_tune_panic_iff.
+Theorem c05_tune_zero_unit : forall h th gas cap, tune_active h th = true -> tune_fee h th gas 0 cap = cap.
+Proof. exact tune_fee_zero_unit. Qed.
+Print Assumptions c05_tune_zero_unit.
 
-(** (7) The wrapping side, part one. The rounding unit GasPrice * MIN_TRANSACTION_GAS (uint64)
-    is 0 exactly for the gas prices that are multiples of 2^59; a panic of the handler that is not
-    the storage writer's is this division by zero; and a charged transaction with such a price
-    whose script runs does panic at every height at which rounding is active. The driver replays
-    this on the implementation (witness gasprice-2^59; known finding panic:gasprice-round-zero). *)
+(** (7) The wrapping side, part one. The rounding unit GasPrice * MIN_TRANSACTION_GAS (uint64) is 0
+    exactly for the gas prices that are multiples of 2^59 (these used to crash block execution:
+    finding fixed in 96f31c72, regression probes corpus/C05/gasprice-2p59.json, -2p63.json). A
+    charged failing transaction with such a price is now asked for the balance read before
+    execution; and the handler has no panic left except the storage writer's inside a charge. *)
 Theorem c05_round_zero_iff : forall price, price < two64 ->
   (fee_fail_round price = 0 <-> price mod 576460752303423488 = 0).
 Proof. exact round_zero_iff. Qed.
 Print Assumptions c05_round_zero_iff.
 
-Theorem c05_panic_is_round_zero : forall env tx ip s,
-  r_status (handle_invoke env tx ip s) = StPanic -> r_req (handle_invoke env tx ip s) = None ->
-  is_charge tx = true /\ tune_active (e_height env) (e_tune env) = true /\ fee_fail_round (t_price tx) = 0.
-Proof. exact handle_invoke_panic. Qed.
-Print Assumptions c05_panic_is_round_zero.
+Theorem c05_round_zero_asks_balance : forall env tx s gas cap,
+  tune_active (e_height env) (e_tune env) = true ->
+  tuned_cost_invalid env tx s gas 0 cap = cost_invalid tx s cap.
+Proof. exact round_zero_asks_balance. Qed.
+Print Assumptions c05_round_zero_asks_balance.
 
-Theorem c05_round_zero_panics : forall env tx ip s avail clg old o,
-  tune_active (e_height env) (e_tune env) = true -> fee_fail_round (t_price tx) = 0 ->
-  ip s (fee_exec_gas avail clg) = Some o -> o_internal o = false ->
-  (o_ok o = true -> get_balance (mkState (o_cache o) (st_overlay s) (st_store s)) (t_payer tx) <> None) ->
-  r_status (exec_part env tx ip s true avail clg old) = StPanic.
-Proof. exact exec_part_round_zero_panics. Qed.
-Print Assumptions c05_round_zero_panics.
+Theorem c05_no_panic_without_charge : forall env tx ip s,
+  r_status (handle_invoke env tx ip s) = StPanic -> r_req (handle_invoke env tx ip s) <> None.
+Proof. exact handle_invoke_panic. Qed.
+Print Assumptions c05_no_panic_without_charge.
 
 (** (8) The no-wrap side. If MIN_TRANSACTION_GAS*GasPrice, GasLimit*GasPrice and
     codeLenGas*GasPrice do not wrap (and sc.Gas only decreases), the amount a failing transaction is
@@ -221,9 +220,54 @@ Example c05_wrap_free_failure :
   abs_block (r_state r) = abs_block (ex_s 100000000000000000000000000%Z).
 Proof. vm_compute. repeat split; try reflexivity; discriminate. Qed.
 
-(** The division by zero: GasPrice = 2^59. *)
+(** GasPrice = 2^59 (the repaired division by zero): the unit and the minimum are 0, the failing
+    transaction is charged the whole balance it had (1 ONG) and reports exactly that. *)
 Example c05_round_zero_example :
-  fee_fail_round 576460752303423488 = 0 /\
-  r_status (handle_invoke ex_env (mkTx ex_payer true 576460752303423488 20000 1 false) ex_ip
-              (cache_reset (ex_s 1000000000000000000%Z))) = StPanic.
-Proof. vm_compute. split; reflexivity. Qed.
+  let r := handle_invoke ex_env (mkTx ex_payer true 576460752303423488 20000 1 false) ex_ip0
+              (cache_reset (ex_s 1000000000000000000%Z)) in
+  fee_fail_round 576460752303423488 = 0 /\ fee_min_gas 576460752303423488 = 0 /\
+  r_status r = StFail /\ r_gas r = 1000000000 /\ r_fee_events r = [1000000000] /\
+  bal_in (abs_block (r_state r)) ex_payer = Some 0%Z.
+Proof. vm_compute. repeat split; reflexivity. Qed.
+
+(** * Deploy transactions (outside the property's quantifier): the same statement is FALSE
+
+    HandleDeployTransaction charges the fee through the transaction cache and commits it BEFORE it
+    looks the contract up; when the contract was destroyed earlier it then returns an error without
+    having written GasConsumed or the transfer event to the notify. The failed transaction has paid
+    gasLimit*GasPrice, reports 0 and records no event. Replayed on the implementation by the driver
+    (witness deploy-destroyed; known finding deploy:redeploy-destroyed-fee-unreported). *)
+Definition c05_deploy_statement : Prop :=
+  forall create unit d s, wf_state s = true ->
+    r_status (handle_deploy create unit d (cache_reset s)) = StFail ->
+    only_fee (t_payer (d_tx d)) s (handle_deploy create unit d (cache_reset s)).
+
+Definition ex_dep : deptx := mkDep (mkTx ex_payer true 2500 30000000 30 false) [7;7;7] [1;2;3].
+(** payer: 100 ONG; the contract [7;7;7] carries a destroyed marker *)
+Definition ex_sd : state :=
+  mkState [] []
+          [(pkey pfx gov_key, rec_of 7500000000000000000%Z);
+           (pkey pfx (ong_key ex_payer), rec_of 100000000000000000000%Z);
+           (pkey FEE_ST_DESTROYED [7;7;7], [9;0;0;0])].
+
+Theorem c05_deploy_refuted : ~ c05_deploy_statement.
+Proof.
+  intro H.
+  specialize (H (Some FEE_CONTRACT_CREATE_GAS) (Some FEE_UINT_DEPLOY_CODE_LEN_GAS) ex_dep ex_sd).
+  assert (W : wf_state ex_sd = true) by (vm_compute; reflexivity).
+  assert (F : r_status (handle_deploy (Some FEE_CONTRACT_CREATE_GAS) (Some FEE_UINT_DEPLOY_CODE_LEN_GAS) ex_dep (cache_reset ex_sd)) = StFail)
+    by (vm_compute; reflexivity).
+  destruct (H W F) as (_ & _ & _ & [[_ E]|[E _]]).
+  - vm_compute in E. discriminate E.
+  - vm_compute in E. apply E. reflexivity.
+Qed.
+Print Assumptions c05_deploy_refuted.
+
+(** what happened in the witness: FAIL, GasConsumed 0, no event, 50 ONG gone from the payer *)
+Example c05_deploy_refuted_witness :
+  let r := handle_deploy (Some FEE_CONTRACT_CREATE_GAS) (Some FEE_UINT_DEPLOY_CODE_LEN_GAS) ex_dep (cache_reset ex_sd) in
+  r_status r = StFail /\ r_gas r = 0 /\ r_events r = 0 /\
+  bal_in (abs_block ex_sd) ex_payer = Some 100000000000000000000%Z /\
+  bal_in (abs_block (r_state r)) ex_payer = Some 50000000000000000000%Z /\
+  bal_in (abs_block (r_state r)) FEE_GOV_ADDR = Some 57500000000000000000%Z.
+Proof. vm_compute. repeat split; reflexivity. Qed.
